@@ -222,7 +222,14 @@ static int new_packet(int sk_fd, int can_socket) {
             can_id |= CAN_RTR_FLAG;
         }
 
-        if (can_variant == AVTP_CAN_FD) {
+        if (can_variant == AVTP_CAN_FD && Avtp_Can_GetFdf((Avtp_Can_t*)acf_pdu) == 0 &&
+                can_payload_length <= CAN_MAX_DLEN) {
+            // A classic frame carried through the FD tunnel leaves as a classic frame
+            frame.cc.can_id = can_id;
+            frame.cc.len = can_payload_length;
+            memcpy(frame.cc.data, can_payload, can_payload_length);
+            res = write(can_socket, &frame.cc, sizeof(struct can_frame));
+        } else if (can_variant == AVTP_CAN_FD) {
             if (Avtp_Can_GetBrs((Avtp_Can_t*)acf_pdu)) {
                 frame.fd.flags |= CANFD_BRS;
             }
